@@ -332,6 +332,125 @@ def r01_5(chk, P):
     chk.require(k >= 2, '_book_unquantize: reads of the value list not found')
 
 
+def r01_6(chk, P):
+    chk.rule('R01.6', 'samples per block (04-codec.tex, "window_blocksize(previous_window)/4+window_blocksize(current_window)/4"): in '
+             'vorbis_synthesis_blockin every linear combination of block sizes other than a bare block size -- the amounts by which '
+             'pcm_current, the running granule position and the sample counter advance -- equals blocksizes[P]/4 + blocksizes[C]/4, '
+             'where C is the window flag the function copies from the submitted block and P is the location that received the '
+             'old value of C before that copy (both discovered from the stores; reads through single-definition locals are '
+             'resolved at the point of the definition)')
+    from fractions import Fraction
+    from rules.c19 import _linform
+    F = P.need('vorbis_synthesis_blockin')
+    chk.require(len(F.params) >= 2 and F.params[0].get('record') and F.params[1].get('record'),
+                'vorbis_synthesis_blockin: (state, block) parameters not found')
+    srec, brec = F.params[0]['record'], F.params[1]['record']
+    defs = common.single_defs(F)
+
+    def before(a, b):
+        pa, pb = F.pos.get(a), F.pos.get(b)
+        if pa is None or pb is None:
+            return False
+        if pa[0] == pb[0]:
+            return pa[1] < pb[1]
+        return common._reaches_without(F, pa[0], pb[0], None) and not common._reaches_without(F, pb[0], pa[0], None)
+
+    # which fields index the block-size table
+    idx_fields = set()
+    for n in F.nodes('sub'):
+        b = F.ex[F.strip_casts(F.ex[n]['c'][0])]
+        if b['k'] == 'member' and b['field'] == 'blocksizes':
+            for m in F.walk(F.ex[n]['c'][1]):
+                md = F.ex[m]
+                if md['k'] == 'member':
+                    idx_fields.add((md['record'], md['field']))
+    # C: state field stored from a block field; P: state field stored from C before that
+    cstore = pstore = None
+    for n in F.nodes('assign'):
+        nd = F.ex[n]
+        if nd['op'] != '=':
+            continue
+        l, r = F.ex[F.strip_casts(nd['c'][0])], F.ex[F.strip_casts(nd['c'][1])]
+        if l['k'] == 'member' and r['k'] == 'member' and l['record'] == srec and r['record'] == brec \
+                and (l['record'], l['field']) in idx_fields:
+            cstore = (n, l['field'], r['field'])
+    chk.require(cstore is not None, 'vorbis_synthesis_blockin: the store of the submitted block\'s window flag into the state was not found')
+    for n in F.nodes('assign'):
+        nd = F.ex[n]
+        if nd['op'] != '=':
+            continue
+        l, r = F.ex[F.strip_casts(nd['c'][0])], F.strip_casts(nd['c'][1])
+        if l['k'] == 'member' and l['record'] == srec and (srec, l['field']) in idx_fields and l['field'] != cstore[1] \
+                and before(n, cstore[0]):
+            rd = F.ex[r]
+            while rd['k'] == 'ref' and rd['decl'].get('kind') == 'var' and defs.get(rd['decl'].get('id')) is not None:
+                rd = F.ex[F.strip_casts(defs[rd['decl']['id']])]
+            if rd['k'] == 'member' and (rd['record'], rd['field']) == (srec, cstore[1]):
+                pstore = (n, l['field'])
+    chk.require(pstore is not None, 'vorbis_synthesis_blockin: the store that keeps the previous window flag was not found')
+    written = {}
+    for n in F.nodes('assign'):
+        l = F.ex[F.strip_casts(F.ex[n]['c'][0])]
+        if l['k'] == 'member':
+            written.setdefault((l['record'], l['field']), []).append(n)
+
+    def cls(e, at, depth=0):
+        """'P', 'C', ('const', v) or a text: which window flag the index expression e, evaluated at `at`, denotes"""
+        nd = F.ex[F.strip_casts(e)]
+        if nd['k'] == 'int':
+            return ('const', nd['v'])
+        if nd['k'] == 'ref' and nd['decl'].get('kind') == 'var' and depth < 3:
+            d = defs.get(nd['decl'].get('id'))
+            if d is not None:
+                return cls(d, d, depth + 1)
+        if nd['k'] == 'member':
+            key = (nd['record'], nd['field'])
+            if key == (srec, cstore[1]):
+                return 'C' if before(cstore[0], at) else ('P' if before(at, cstore[0]) else '?')
+            if key == (srec, pstore[1]) and before(pstore[0], at) and len(written.get(key, [])) == 1:
+                return 'P'
+            if key == (brec, cstore[2]) and not written.get(key):
+                return 'C'
+        return F.s(F.strip_casts(e))
+
+    def atom(n):
+        nd = F.ex[n]
+        if nd['k'] == 'sub':
+            b = F.ex[F.strip_casts(nd['c'][0])]
+            if b['k'] == 'member' and b['field'] == 'blocksizes':
+                return ('bs', cls(nd['c'][1], n))
+        return '@' + F.s(n)
+
+    want = {('bs', 'P'): Fraction(1, 4), ('bs', 'C'): Fraction(1, 4)}
+    seen = set()
+    k = 0
+    cands = [n for n in F.pos if F.ex[n]['k'] in ('bin', 'sub')]
+    for n in sorted(cands):
+        lf = _linform(F, n, defs, atom=atom)
+        if lf is None or not lf or not all(isinstance(a, tuple) and a[0] == 'bs' for a in lf):
+            continue
+        # maximal: the parent is not itself such a form
+        p = F.sparent.get(n)
+        while p is not None and F.ex[p]['k'] == 'cast':
+            p = F.sparent.get(p)
+        if p is not None and F.ex[p]['k'] in ('bin',):
+            plf = _linform(F, p, defs, atom=atom)
+            if plf is not None and plf and all(isinstance(a, tuple) and a[0] == 'bs' for a in plf):
+                continue
+        if len(lf) == 1 and list(lf.values()) == [Fraction(1)]:
+            continue        # a bare block size
+        ok = all(lf.get(a, 0) == want.get(a, 0) for a in set(lf) | set(want))
+        show = ' + '.join(f'{c}*blocksizes[{a[1]}]' for a, c in sorted(lf.items(), key=str))
+        chk.ob('R01.6', F.name, f'block-advance#{k}', ok, F.where(n),
+               f'{F.s(n)} = {show} with P={F.params[0]["name"]}->{pstore[1]} (stored from {cstore[1]} before) and '
+               f'C={F.params[0]["name"]}->{cstore[1]} (stored from the block\'s {cstore[2]})' if ok else
+               f'{F.s(n)} = {show}: the specification returns blocksizes[previous]/4 + blocksizes[current]/4 samples per block, '
+               f'previous = {F.params[0]["name"]}->{pstore[1]}, current = {F.params[0]["name"]}->{cstore[1]}; this amount moves a '
+               f'sample counter by something else')
+        k += 1
+    return k
+
+
 def run(chk, P):
     chk.rule('R01.1', 'for every specification section with a bit layout the sequence of field widths in the TeX source '
              '(document order, consecutive duplicates collapsed, computed widths as V) is a linearisation of the reader '
@@ -346,6 +465,8 @@ def run(chk, P):
     chk.floor('R01.4', 1)
     r01_5(chk, P)
     chk.floor('R01.5', 2)
+    r01_6(chk, P)
+    chk.floor('R01.6', 1)
     chk.notes.append(f'R01.2 compared {ncon} table constants')
     chk.trusted += ['clang 14 front end and constant evaluator', 'the specification sources doc/*.tex of the repository are the oracle',
                     'width extraction from the TeX text (engine/spec.py) recognises the phrasings used in the pinned documents; '
